@@ -29,13 +29,16 @@ class Translator:
     def __init__(self, V):
         self.V = V
         self.cache = {}
+        self.visitors = {}          # one reused visitor instance per alias
 
     def sql(self, text, alias=None):
         k = (text, alias)
         if k not in self.cache:
             from odata_query import exceptions as ex
             try:
-                out = self.V(alias).visit(project.parse(text))
+                if alias not in self.visitors:
+                    self.visitors[alias] = self.V(alias)
+                out = self.visitors[alias].visit(project.parse(text))
                 self.cache[k] = ("ok", out) if isinstance(out, str) else ("nonstring", repr(out)[:60])
             except ex.ODataException as e:
                 self.cache[k] = ("refused", type(e).__name__)
